@@ -23,7 +23,7 @@ func c18Flag(b bool) string {
 func c18Item(e serf.Event) string {
 	switch v := e.(type) {
 	case serf.UserEvent:
-		return fmt.Sprintf("%s/%d/%s/%s", hexs(v.Name), uint64(v.LTime), c18Flag(v.Coalesce), string(v.Payload))
+		return fmt.Sprintf("%s/%d/%s/%s", hexs(v.Name), uint64(v.LTime), c18Flag(v.Coalesce), c18Payload(v.Payload))
 	case serf.MemberEvent:
 		if len(v.Members) == 1 {
 			return "o/" + v.Members[0].Name
@@ -69,6 +69,18 @@ func c18Raw(evs []serf.Event) string {
 	return strings.Join(items, ",")
 }
 
+// payload field of the protocol: decimal digits are the payload bytes themselves; `e` is the empty
+// (non-nil) payload and `z` the nil payload — two different events that byte-compare equal.
+func c18Payload(b []byte) string {
+	if b == nil {
+		return "z"
+	}
+	if len(b) == 0 {
+		return "e"
+	}
+	return string(b)
+}
+
 func c18User(f []string) (serf.UserEvent, bool) {
 	if len(f) != 4 {
 		return serf.UserEvent{}, false
@@ -78,10 +90,19 @@ func c18User(f []string) (serf.UserEvent, bool) {
 	if nb == nil || err != nil || (f[2] != "c" && f[2] != "n") {
 		return serf.UserEvent{}, false
 	}
-	if _, err := strconv.ParseUint(f[3], 10, 64); err != nil {
-		return serf.UserEvent{}, false
+	var payload []byte
+	switch f[3] {
+	case "z":
+		payload = nil
+	case "e":
+		payload = []byte{}
+	default:
+		if _, err := strconv.ParseUint(f[3], 10, 64); err != nil {
+			return serf.UserEvent{}, false
+		}
+		payload = []byte(f[3])
 	}
-	return serf.UserEvent{LTime: serf.LamportTime(lt), Name: string(nb), Payload: []byte(f[3]), Coalesce: f[2] == "c"}, true
+	return serf.UserEvent{LTime: serf.LamportTime(lt), Name: string(nb), Payload: payload, Coalesce: f[2] == "c"}, true
 }
 
 func c18Other(id string) (serf.Event, bool) {
@@ -328,6 +349,56 @@ func c18Gen(rng *rand.Rand, tier string) []Case {
 		rec(full, nil, 3, 1, "exhaustive")
 		rec(coal, nil, 4, 4, "exhaustive-coalescable-len4")
 	}
+	// --- exhaustive, same name: times {1,2} x payloads {7, 8, empty, nil} WITH repeats, every flush placement:
+	// events that are equal in name, time and payload (or differ only in nil vs empty payload) are all kept
+	{
+		type dsym struct {
+			lt  int
+			pay string
+		}
+		var dalpha []dsym
+		for _, lt := range []int{1, 2} {
+			for _, pay := range []string{"7", "8", "e", "z"} {
+				dalpha = append(dalpha, dsym{lt, pay})
+			}
+		}
+		L := 3
+		var drec func(prefix []dsym)
+		drec = func(prefix []dsym) {
+			if len(prefix) > 0 {
+				for mask := 0; mask < 1<<uint(len(prefix)); mask++ {
+					if tier != "thorough" && len(prefix) == 3 && mask != 0 && mask != 2 && mask != 5 {
+						continue
+					}
+					var ops []string
+					dup := false
+					seen := map[string]bool{}
+					for i, d := range prefix {
+						ops = append(ops, fmt.Sprintf("ev %s %d c %s", hexs("a"), d.lt, d.pay))
+						key := fmt.Sprintf("%d/%s", d.lt, strings.NewReplacer("z", "e").Replace(d.pay))
+						if seen[key] {
+							dup = true
+						}
+						seen[key] = true
+						if mask&(1<<uint(i)) != 0 {
+							ops = append(ops, "flush")
+							seen = map[string]bool{}
+						}
+					}
+					ops = append(ops, "flush", "flush")
+					out = append(out, Case{ID: fmt.Sprintf("d%d", id), Ops: ops, Nontrivial: dup, Tags: []string{"exhaustive-equal-payloads"}})
+					id++
+				}
+			}
+			if len(prefix) == L {
+				return
+			}
+			for _, a := range dalpha {
+				drec(append(append([]dsym{}, prefix...), a))
+			}
+		}
+		drec(nil)
+	}
 	// --- random, direct
 	names := []string{"a", "b", "deploy", "", "x y", "a/b,c"}
 	lts := []uint64{0, 1, 2, 3, 7, 1 << 32, 1<<64 - 2, 1<<64 - 1}
@@ -343,7 +414,11 @@ func c18Gen(rng *rand.Rand, tier string) []Case {
 			return fmt.Sprintf("loev %d", i), false
 		}
 		c := rng.Intn(5) != 0
-		return fmt.Sprintf("%s %s %d %s %d", op, hexs(names[rng.Intn(len(names))]), lts[rng.Intn(len(lts))], c18Flag(c), i), c
+		pay := strconv.Itoa(i)
+		if rng.Intn(3) == 0 { // payloads that repeat inside a window, the empty and the nil payload
+			pay = []string{"1", "2", "e", "z"}[rng.Intn(4)]
+		}
+		return fmt.Sprintf("%s %s %d %s %s", op, hexs(names[rng.Intn(len(names))]), lts[rng.Intn(len(lts))], c18Flag(c), pay), c
 	}
 	for i := 0; i < n; i++ {
 		var ops []string
@@ -422,7 +497,7 @@ func init() {
 	register(&Prop{
 		ID: "C18",
 		Rule: "direct coalescer: exhaustive — every sequence of ≤3 user events over 2 names × times {0,1,2} × coalesce flag (thorough: ≤4) with a flush at every subset of positions (quick adds all length-4 sequences of coalescable events with 6 of the 16 flush placements); " +
-			"random sequences over 6 names (incl. empty, separators) × 8 times (incl. 0, 2^64-1) × flag, with other-kind events; " +
+			"every sequence of ≤3 same-name events over times {1,2} × payloads {7,8,empty,nil} with repeats (equal events, nil vs empty payload) at flush placements; random sequences over 6 names (incl. empty, separators) × 8 times (incl. 0, 2^64-1) × flag, with other-kind events; " +
 			"real coalesceLoop goroutine: hour-long timers, every unhandled event must come out before the next is sent, flush by shutdown; short quantum / quiescent timers, flush by timer judged by the monitor for some placement of flush points. " +
 			"non-trivial = a flush follows ≥2 coalescable events that tie or differ in name/time (direct), an unhandled event is sent while coalesced events are pending (loop), any timer case; distinct = distinct op sequence",
 		Gen:  c18Gen,
